@@ -139,7 +139,9 @@ def run_c14(ctx):
     plans = [(2, ["p0", "p1", "p2", "p3"])] if ctx.tier == "quick" else [(3, ["p0", "p1"]), (2, ["p2", "p3"])]
     n = max(p[0] for p in plans)
     for k, prefixes in plans:
-        res = vlib.run_tlc(ctx, "MCLoader", LOADER_CFG.format(n=k, prefixes=tlaset(prefixes), known=tlaset(sorted(devs)), intro="TRUE"), timeout=3400, xss="64m")
+        # quick: every second history, chosen by the seed (TLC still checks Atomic / AsIfNeverHappened on all of them)
+        res = vlib.run_tlc(ctx, "MCLoader", LOADER_CFG.format(n=k, prefixes=tlaset(prefixes), known=tlaset(sorted(devs)), intro="TRUE"), timeout=3400, xss="64m",
+                           vec_filter=(lambda i: i % 2 == ctx.seed % 2) if ctx.tier == "quick" else None)
         vlib.require_clean(res, "MCLoader")
         loadhist(ctx, res.vecs, "histories-%d-%s" % (k, "".join(prefixes)), {"verdict", "atomic", "schema", "intro"}, devs, extra=["-intro"])
     record_and_judge(ctx, devs, 400 if ctx.tier == "quick" else 6000)
